@@ -120,6 +120,8 @@ class Renderer:
         if t == 'cls':
             return [render_class(r, self.native)] if not (self.native and r['sub']) else \
                 ['(?:' + render_class(r, True) + ')']
+        if t == 'eps':
+            return []
         if t == 'bol':
             return ['^']
         if t == 'eol':
@@ -716,6 +718,11 @@ AST_CONFIGS = {
         ('xsd11', '', '1.1', dict(AtomNames={"i", "I", "c", "C", "AS", "a", "w", "HY"}, OperandNames={"a", "AS"}, OperandDepth=0,
                                   Unaries={"star", "rep2", "grp"}, Unaries2=set(), Binaries={"cat", "alt"}, MaxDepth=1,
                                   SubjChars={3, 4, 7, 9}, MaxLen=2), 8, True),
+        # quantifiers with multi-digit bounds on an atom, a class and a group; subjects a^0 .. a^13
+        ('bigrep', '', '1.0', dict(AtomNames={"a", "c_ab", "any"}, OperandNames={"a"}, OperandDepth=0,
+                                   Unaries={"grp", "rep10", "rep2_10", "rep9_10", "rep3_12", "rep0_11", "rep10U", "rep2_10L"},
+                                   Unaries2={"rep10", "rep2_10", "rep9_10", "rep3_12", "rep2_10L"},
+                                   Binaries={"cat", "alt"}, MaxDepth=2, SubjChars={7}, MaxLen=13), 4, False),
         # back-references written as a run of digits, after 1, 2 and 10 groups: \\15 \\155 \\1555 \\255 \\1055 ..
         ('backref', '', '1.0', dict(AtomNames={"a", "r1_15", "r1_155", "r1_1555", "r1_125", "r2_25", "r2_255", "r2_155",
                                                "r10_105", "r10_1055", "r10_155", "r10_255", "r10_10"},
@@ -795,21 +802,56 @@ def as_list(v):
     return v if isinstance(v, (list, tuple)) and not (isinstance(v, tuple) and v and v[0] in ('err', 'escaped')) else [v]
 
 
+def group_elements(match_el, base: int):
+    """fn:group elements of one fn:match element -> [(nr, parent nr, start, end)], offsets in the input"""
+    out = []
+
+    def walk_el(el, parent, pos):
+        pos += len(el.text or '')
+        for ch in el:
+            start = pos
+            nr = int(ch.get('nr', '0'))
+            pos = walk_el(ch, nr, pos)
+            out.append((nr, parent, start, pos))
+            pos += len(ch.tail or '')
+        return pos
+    walk_el(match_el, 0, base)
+    return sorted(out)
+
+
+XML_BINDING = {7: '&', 8: '<'}     # alternative binding of the abstract characters a, b (patterns without escapes / ranges)
+
+
 def fns_worker(job):
-    flag, ver, states = job
+    flag, ver, states, binding = job
+    saved = dict(CH)
+    CH.update(binding)
+    try:
+        return _fns_worker(flag, ver, states, 'xml' if binding else 'letters')
+    finally:
+        CH.update(saved)
+
+
+def _fns_worker(flag, ver, states, binding):
+    import elementpath
+    parsers, root = _api()
     bag = Bag()
     t_cpu = time.process_time()
-    for r, s, nullable, found, adm in states:
+    for r, s, nullable, found, adm, ginfo in states:
         types = node_types(r)
         p = render(r, '(?:')
         text = subj(s)
         h = zlib.crc32((p + '|' + text).encode())
-        base = dict(kind='fns', flag=flag, has_group=bool(types & {'grp', 'dup'}), has_anchor=bool(types & {'bol', 'eol'}),
+        base = dict(kind='fns', flag=flag, binding=binding, has_group=bool(types & {'grp', 'dup'}),
+                    has_anchor=bool(types & {'bol', 'eol'}),
                     # a capturing group that contains an optional capturing group
+                    # a capturing group inside a repetition (its last capture may lie anywhere in the match)
+                    group_in_loop=any(x['t'] in ('star', 'plus', 'rep') and any(y['t'] in ('grp', 'dup') for y in walk(x['r']))
+                                      for x in walk(r)),
                     opt_group_in_group=any(x['t'] in ('grp', 'dup') and any(
                         y['t'] in ('opt', 'star', 'rep') and y['r']['t'] in ('grp', 'dup') for y in walk(x['r'])) for x in walk(r)))
         case0 = dict(kind='fns', pattern=p, subject=text, flag=flag, xsd_version=ver)
-        bag.add('pairs')
+        bag.add('pairs' if binding == 'letters' else 'pairs_xml_binding')
         if adm and any(len(a['parts']) > 1 for a in adm):
             bag.add('nontrivial')
 
@@ -866,6 +908,41 @@ def fns_worker(job):
                     if entry is None:
                         bad('analyze-string', 'admissible', version, sorted(a['parts'] for a in adm), parts,
                             f"analyze-string({text!r}, {pv!r}) = {az}: not an admissible match / non-match partition")
+            # fn:group elements: numbers, nesting and captured substrings as the specification admits them
+            if version != '2.0' and entry is not None and ginfo:
+                res = outcome(lambda: elementpath.select(root, 'analyze-string($s,$p,$f)', variables=dict(s=text, p=pv, f=flag),
+                                                         parser=parsers[version]))
+                bag.add('evaluations')
+                el = res[0] if isinstance(res, list) and res else res
+                if not hasattr(el, 'iter'):
+                    bad('analyze-string', 'groups', version, 'an element', res, f"analyze-string({text!r}, {pv!r}) gave no element")
+                else:
+                    pos = 0
+                    for part in el:
+                        plen = len(''.join(part.itertext()))
+                        if part.tag.endswith('}match'):
+                            grs = group_elements(part, pos)
+                            problems = []
+                            for nr, parent, a, b in grs:
+                                if not 1 <= nr <= len(ginfo):
+                                    problems.append(('number', nr))
+                                elif sum(1 for g in grs if g[0] == nr) > 1:
+                                    problems.append(('twice', nr))
+                                elif parent != ginfo[nr - 1]['parent']:
+                                    problems.append(('nesting', nr))
+                                elif (a - 0, b - 0) not in ginfo[nr - 1]['spans'] or not (pos <= a <= b <= pos + plen):
+                                    problems.append(('capture', nr))
+                            if problems:
+                                kinds = sorted({k for k, _ in problems})
+                                empties = any(a == b for _, _, a, b in grs)
+                                bag.fail(dict(base, fn='analyze-string', law='groups', outcome='value', problem='+'.join(kinds),
+                                              empty_group=empties, reversed_groups=any(
+                                                  x[0] < y[0] and x[2] > y[2] for x in grs for y in grs)),
+                                         dict(case0, fn='analyze-string', law='groups', parser=version),
+                                         [dict(nr=n + 1, parent=g['parent'], spans=sorted(g['spans'])) for n, g in enumerate(ginfo)],
+                                         [list(g) for g in grs],
+                                         f"analyze-string({text!r}, {pv!r}): fn:group elements (nr, parent, start, end) {grs}: {problems}")
+                        pos += plen
             # tokenize = the tokens induced by the partition analyze-string returned (or, for 2.0, by some admissible one)
             if tok_l is not None:
                 cands = [entry] if entry is not None else list(adm)
@@ -893,12 +970,16 @@ FNS_CONFIGS = {
                         PatBinaries={"cat", "alt"}, PatDepth=1, SubjChars={1, 4, 7}, MaxLen=3)),
         ('groups', '', dict(PatAtoms={"a", "b"}, PatUnaries={"plus", "grp"}, PatBinaries={"cat", "alt"}, PatDepth=2,
                             SubjChars={1, 7, 8}, MaxLen=3)),
+        # groups that take part in a match with an empty capture, in every position, next to ungrouped matched text
+        ('emptygroups', '', dict(PatAtoms={"a", "b", "g_bs", "g_bo", "g_e", "g_ae", "g_mid", "g_mid2", "g_altp", "g_in", "g_nest"},
+                                 PatUnaries={"grp", "opt"}, PatBinaries={"cat", "alt"}, PatDepth=1, SubjChars={7, 8}, MaxLen=3)),
         ('anchors', '', dict(PatAtoms={"a", "NL", "bol", "eol"}, PatUnaries={"plus", "opt"}, PatBinaries={"cat", "alt"},
                              PatDepth=1, SubjChars={1, 7}, MaxLen=3)),
         ('anchors-m', 'm', dict(PatAtoms={"a", "NL", "bol", "eol"}, PatUnaries={"plus", "opt"}, PatBinaries={"cat", "alt"},
                                 PatDepth=1, SubjChars={1, 7}, MaxLen=3)),
     ],
 }
+XML_BINDING_CONFIGS = {'groups'}
 FNS_CONFIGS['thorough'] = FNS_CONFIGS['quick'] + [
     ('d1-wide', '', dict(PatAtoms={"a", "b", "any", "d", "D", "c_na", "c_sub", "NL", "w", "pL"},
                          PatUnaries={"star", "plus", "opt", "rep2", "rep12", "plusL", "grp", "dup"},
@@ -921,11 +1002,16 @@ def run_fns(chk: core.Check, totals: dict, done: dict) -> None:
         chk.model(f'RegexFns/{name}', r)
         g = tla.load_dot(dot)
         os.remove(dot)
-        states = [(st['r'], st['s'], st['nullable'], st['found'], tuple(st['adm'])) for st in g.states.values()]
+        states = [(st['r'], st['s'], st['nullable'], st['found'], tuple(st['adm']),
+                   tuple(dict(parent=gi['parent'], spans=frozenset(gi['spans'])) for gi in st['ginfo']))
+                  for st in g.states.values()]
         if not any(len(x[4]) > 1 for x in states) or not any(not x[3] for x in states):
             raise tla.MachineryError(f'RegexFns/{name}: vacuous (no ambiguous partition or no non-matching input)')
         states.sort(key=lambda x: (render(x[0]), x[1]))
-        jobs = [(flag, '1.0', states[k::48]) for k in range(48)]
+        jobs = [(flag, '1.0', states[k::48], {}) for k in range(48)]
+        if name in XML_BINDING_CONFIGS:
+            # the same vectors with a, b bound to the XML-significant characters & and <
+            jobs += [(flag, '1.0', states[k::16], XML_BINDING) for k in range(16)]
         submit(fns_worker, [j for j in jobs if j[2]], lambda res: collect(chk, res, totals, 'fns'))
         chk.add('transitions', len(g.edges))
         chk.add('traces_validated_against_impl', len(g.edges))
@@ -1115,7 +1201,7 @@ def syntax_worker(job):
         feat0 = dict(kind='syntax', mode=mode, xsd_version=ver, expected='valid' if valid else 'invalid', why=why,
                      ncg='(?:' in toks, in_class='[' in toks,
                      brackets='open' if nopen > nclose else 'balanced' if nopen == nclose else 'extra',
-                     subtraction=any(a == '-' and b == '[' for a, b in zip(toks, toks[1:])))
+                     subtraction=any(a == '-' and b == '[' for a, b in zip(toks, toks[1:])), stray_brace='}' in toks)
         case0 = dict(kind='syntax', pattern=p, mode=mode, xsd_version=ver)
         try:
             py = translate_pattern(p, 0, ver, xp, xp, xp)
@@ -1175,6 +1261,8 @@ ALL_TOKENS = {"a", "-", "^", "$", ".", "*", "?", "+", "{2}", "{1,2}", "{2,1}", "
 CLS_TOKENS = {"a", "-", "^", "]", "[", "%d", "%-", "*", "("}
 XP_TOKENS = {"a", "*", "?", "{2}", "(", ")", "|", "%1", "^", "[", "]", "(?:"}
 XP_TOKENS_Q = {"a", "*", "?", "{2}", "(", ")", "|", "%1", "[", "]"}
+QUANT_TOKENS = {"a", "(", ")", "[", "]", "?", "{10}", "{2,10}", "{9,10}", "{10,2}", "{10,9}", "{12,}", "{3,12}",
+                "{7,100}", "{100,7}", "{0,0}"}
 Q_TOKENS = {"a", ".", "*", "?", "(", "[", "]", "|", "^"}
 
 SYNTAX_CONFIGS = {
@@ -1187,6 +1275,8 @@ SYNTAX_CONFIGS = {
         ('xsd-cls5', 'xsd', '1.0', CLS_TOKENS, {"["}, 5, False),
         ('xp3-cls5-11', 'xp3', '1.1', CLS_TOKENS, {"["}, 5, True),
         ('xp3-cls6', 'xp3', '1.0', {"a", "-", "[", "]", "^"}, {"["}, 6, True),
+        ('xp3-quant', 'xp3', '1.0', (QUANT_TOKENS - {"{0,0}", "{100,7}"}) | {"}", "%0"}, {"a", "(", "["}, 4, True),
+        ('xsd-quant', 'xsd', '1.1', QUANT_TOKENS, {"a"}, 4, False),
     ],
     'thorough': [
         ('xp3-all3', 'xp3', '1.0', ALL_TOKENS, ALL_TOKENS, 3, True),
@@ -1199,6 +1289,8 @@ SYNTAX_CONFIGS = {
         ('xsd-cls6', 'xsd', '1.0', CLS_TOKENS, {"["}, 6, False),
         ('xp3-cls6', 'xp3', '1.0', CLS_TOKENS, {"["}, 6, True),
         ('xp3-cls5-11', 'xp3', '1.1', CLS_TOKENS | {"|", "%n"}, {"["}, 5, True),
+        ('xp3-quant', 'xp3', '1.0', QUANT_TOKENS | {"|", "{11,11}"}, {"a", "(", "["}, 4, True),
+        ('xsd-quant', 'xsd', '1.1', QUANT_TOKENS | {"|", "{11,11}"}, {"a", "(", "["}, 4, False),
     ],
 }
 
@@ -1437,6 +1529,23 @@ def replay_case(case: dict):
                 return not (is_err(r) and r[0] == 'err'), r
             r = r[0] if isinstance(r, list) and len(r) == 1 else r
             return (r not in exp) if law == 'join' else (r != t), r
+        if law == 'groups':
+
+            parsers, root = _api()
+            res = outcome(lambda: elementpath.select(root, 'analyze-string($s,$p,$f)', variables=dict(s=t, p=p, f=f), parser=parsers[v]))
+            el = res[0] if isinstance(res, list) and res else res
+            if not hasattr(el, 'iter'):
+                return True, res
+            pos, grs, wrong = 0, [], False
+            for part in el:
+                plen = len(''.join(part.itertext()))
+                if part.tag.endswith('}match'):
+                    for nr, parent, a, b in group_elements(part, pos):
+                        grs.append([nr, parent, a, b])
+                        g = exp[nr - 1] if 1 <= nr <= len(exp) else None
+                        wrong = wrong or g is None or parent != g['parent'] or [a, b] not in g['spans']
+                pos += plen
+            return wrong or len({g[0] for g in grs}) < len(grs) and False, grs
         r = xpath_call('for $e in analyze-string($s,$p,$f)/* return (local-name($e), string-join($e/descendant-or-self::node()/text(), ""))', v, ver, s=t, p=p, f=f)
         if law == 'nullable-error':
             return not (is_err(r) and r[0] == 'err'), r
